@@ -27,7 +27,7 @@ LEVEL_TEXT = (
     "ConstantExpressionEvaluator, CContext.pack) yields exactly the little-endian image of that value converted to the destination type "
     "for a global initialiser of each integer type, the value converted to the promoted controlling type for a case label, and the "
     "value itself for an enumerator and an array size; the typing inserted by the semantics equals C's typing for every such "
-    "expression; pack never raises for any integer. Proved after four fix commits in /repo (evaluator/pack; integer typing; ?: in is_const_expr; array dimension type); the pre-fix "
+    "expression; pack never raises for any integer and any non-float type it accepts (integer basic types, enums, pointers); enum and pointer objects get the image of the converted value. Proved after four fix commits in /repo (evaluator/pack; integer typing; ?: in is_const_expr; array dimension type); the pre-fix "
     "code is kept as a model with Lean-proved counterexamples. The model is hand-written; its operator tables, ranks, sizes, type sets "
     "and pack formats are re-checked (decide) against a dump of the live objects on every run, and it is tied to the source by a "
     "differential run of the real c_to_ir on generated sources."
